@@ -3,8 +3,8 @@ Kept apart from lib/props.py so that merging work-package snippets cannot clobbe
 
 COMMON_NOTE = ("Trusted: Lean 4.33 kernel (axioms propext, Classical.choice, Quot.sound only; audited by #print axioms on every "
                "property theorem and tie on every run; no sorry/native_decide/bv_decide), the Go->Lean translators (translator*/) "
-               "and the correspondence harness + generators, the soft-float model S2.F64 (validated bit-exactly against Go on every "
-               "run). A theorem is about the Lean model; the model is tied to /repo on every run by regenerated definitions "
+               "and the correspondence harness + generators, the soft-float model S2.F64 (PROVED correctly rounded, S2Proofs/F64Round*.lean; also validated bit-exactly "
+               "against Go on every run). A theorem is about the Lean model; the model is tied to /repo on every run by regenerated definitions "
                "(rfl/decide ties) and by running model and implementation on the same generated inputs. ")
 
 LEVELS = {
@@ -126,3 +126,47 @@ LEVELS = {
        "judged by dense sampling and exact grid/radius checks.",
   note=COMMON_NOTE),
 }
+
+
+# ---- session 3: what was added after the texts above were written (appended to text / note; see DESIGN.md §4 "Session 3") ----
+ADDENDA = {
+ "C01": ("Added: curve continuity in full incl. the six face transitions; the float cross-face wrap for all integer arguments; "
+         "Edge/Vertex/AllNeighbors correct for EVERY cell; neighbours, faceIJ, tokens/strings and the stuv float functions regenerated. "
+         "Defect D46 (ContainsPoint margin) found, repaired, generator added.",
+         "Superseded: the cross-face wrap IS proved (C01_Wrap.lean). Still not proved: sufficiency of the (repaired) 2*dblEpsilon margin; AllNeighbors completeness at face boundaries."),
+ "C02": ("Added: the error constants of triageSign, stableSign and SignDotProd are PROVED sufficient (C02_TriageError / C02_StableError / C02_DotProdError): "
+         "robustSign = exact decision for all unit-ish points, unconditionally; all of predicates.go regenerated function by function (translator_c02).",
+         "Still not proved: the cos / sin^2 distance-triage constants (cosDistance has no first-order slack; searched)."),
+ "C03": ("Added: FloatSound is PROVED on unit-ish points for the repaired code (C03_FloatSound.lean) and the crosser refinement / exactness theorems are "
+         "unconditional on unit points; the proof attempt exposed defect D48 (tangent rejection for nearly antipodal edges), repaired; EdgeCrosser regenerated (translator_c02).",
+         "Superseded: FloatSound is no longer a hypothesis (points with -0 coordinates excepted)."),
+ "C04": ("Added: the parity cocycle is PROVED for the exact geometry incl. degenerate configurations and shared vertices (C04_Cocycle.lean); the path equalities need "
+         "only the index invariants I2/I3; containment code regenerated (translator_c08); index construction modelled bit-exactly (see C06).",
+         "Superseded: ParityCocycle is no longer assumed. Still assumed: locality (I2) for the real index, Jordan-type tiling."),
+ "C05": ("Added: for cell and cell-union regions all hypotheses are discharged and the covering theorems hold end to end (C05_Cells.lean); output-size bounds proved, "
+         "the unqualified MaxCells claim refuted; isCanonical characterised exactly.", ""),
+ "C06": ("Added: ShapeIndex construction modelled bit-exactly and tied cell by cell (op c04build); structural invariants of the built index proved, I1 reduced to "
+         "ClipSound + ShrinkSound + MergeComplete (C06_Build.lean); queries need only I2/I3 (cocycle proved); ShapeIndexIterator regenerated (translator_c08).",
+         "Superseded: ShapeIndex construction is no longer 'correspondence only'."),
+ "C07": ("Added: the two-index walk of the loop relations modelled as written and tied on all 8 complement pairs (op c07walk); alignment / termination / "
+         "completeness-of-crossing-search theorems (C07_Walk.lean); wedges and nesting regenerated (translator_c09).", ""),
+ "C08": ("Added: edge_query.go search / covering / result order and the distance targets regenerated (translator_c08, 248 ties). Defects D47, D49 found and repaired.", ""),
+ "C09": ("Added: encoders and point compression regenerated expression by expression (translator_c09, 92 ties).", ""),
+ "C10": ("Added: bound composition and convex hull control flow regenerated (translator_c10).", ""),
+ "C11": ("Added: Normalize / Denormalize / difference / CellIndex / Find loops regenerated (translator_c10, 101 ties).", ""),
+ "C12": ("Added: stuv and Cell functions regenerated (translator_c09); D46 repaired; Go's float CapBound().ContainsPoint judged on exact in-cell points.", ""),
+ "C13": ("Added: target objects are reused within a history (defect D49 found and repaired).", ""),
+ "C14": ("Added: scenario idx-eq1; defect D47 (iterator used before the index build: data race) found and repaired.", ""),
+ "C16": ("Added: sign symmetry of the REAL kernels proved, bit identity in all 8 orders under decidable side conditions shown necessary (C16_Sym.lean); "
+         "Intersection regenerated (translator_c16). Defect D50 (collinear edges with parallel vertices) found.", ""),
+ "C17": ("Added: edge_distances.go and chordangle.go regenerated as whole functions (translator_c16); a 1-ulp model error found by the tie and repaired.", ""),
+ "C18": ("Added: measures control flow regenerated (translator_c10).", ""),
+ "C19": ("Added: the soft-float is PROVED correctly rounded (F64Round) and the interval / rectangle laws are PROVED for binary64 itself "
+         "(C19_Binary64.lean: 65 of 67 non-cap laws on the instance the oracle executes; nothing assumed); caps regenerated (translator_c10).",
+         "Superseded: the carrier laws are no longer assumed for the soft-float."),
+ "C20": ("Added: tessellator / subsample / snapper control flow regenerated (translator_c10).", ""),
+}
+for _k, (_t, _n) in ADDENDA.items():
+    LEVELS[_k]["text"] = LEVELS[_k]["text"] + " SESSION 3 — " + _t
+    if _n:
+        LEVELS[_k]["note"] = LEVELS[_k]["note"] + " SESSION 3 — " + _n
